@@ -909,6 +909,8 @@ func (p *prop) serve(k *kase, hdrs []hdrField) (string, *obs, error) {
 func (p *prop) Run(line string) core.Outcome {
 	if f := strings.Fields(line); len(f) > 0 && f[0] == "cf" {
 		return p.runCF(f)
+	} else if len(f) > 0 && f[0] == "pp" {
+		return p.runPP(f)
 	}
 	k, ok := parseLine(line)
 	if !ok {
